@@ -326,11 +326,18 @@ class FSM(addons.AddonPersistence, block.SBlock):
         self._stop_timer()
         super().stop()
 
+    def _timer_expired(self, timed_event: str|block.EventType) -> None:
+        """Timer callback: forget the expired timer and deliver the timed event."""
+        # An expired timer must not be reported by get_state() as a running one;
+        # the FSM stays in the timed state without a timer if the timed event is rejected.
+        self._active_timer = None
+        self.event(timed_event)
+
     def _set_timer(self, duration: float, timed_event: str|block.EventType) -> None:
         """Start the timer (low-level)."""
         self.log_debug("timer: %.3fs before %s", duration, timed_event)
         self._active_timer = asyncio.get_running_loop().call_later(
-            duration, self.event, timed_event)
+            duration, self._timer_expired, timed_event)
 
     def _start_timer(
             self, duration: Optional[float|str], timed_event: str|block.EventType) -> None:
